@@ -5,6 +5,7 @@ import AtreeProofs.Iter.ArrayLoadedSM
 import AtreeProofs.Iter.ArrayOverwrite
 import AtreeProofs.Iter.MapTop
 import AtreeProofs.Iter.MapOverwrite
+import AtreeProofs.Iter.MapExample
 /-
   C13 — Every iterator yields exactly the elements once, in canonical order.
   PROPERTY THEOREMS about the iterator models of AtreeModel/Array/Ops.lean (read-only, mutable,
@@ -182,5 +183,57 @@ theorem map_mut_iter_overwrite_current_partial (T : Nat) (hT : legalThreshold T 
     ∃ m' c', m.iterateWith cfg upd c = .ok (m.toList, m', c') ∧ MapInv T D m' ∧
       m'.toList.map (·.1) = m.toList.map (·.1) :=
   IterM.iterateWith_spec hT hset upd hupd m c h hcfg
+
+/-! ## Non-vacuity
+
+`Atree.Example.arr4` (AtreeProofs/Array/Example.lean) is a two-level array produced by the model
+(`T = 256`, an index slab over two data slabs) with a direct proof of `ArrInv`;
+`Atree.IterExample.map3` (AtreeProofs/Iter/MapExample.lean) is a map produced by the model (`T = 256`,
+two digest levels) whose first element is an inline collision group, with a direct proof of
+`MapInv`.  The theorems above apply to them, and the iterators compute what the theorems say. -/
+section NonVacuity
+open Atree.Example Atree.IterExample
+
+example : ArrInv Example.T0 arr4 3 := arr4_inv
+example : arr4.toList = [elem 0, elem 1, elem 2, elem 3] := rfl
+
+/-- the right data slab `1.3` not loaded: the loaded-value iterator yields the left half … -/
+example : arr4.iterLoaded (fun id => id != ⟨1, 3⟩) = [elem 0, elem 1] := by decide
+/-- … the iterator object agrees … -/
+example : arr4.iterLoadedSM (fun id => id != ⟨1, 3⟩) = [elem 0, elem 1] :=
+  (arr_loaded_iterator_object_eq _ arr4).trans (by decide)
+/-- … and that is a sublist of the enumeration, by the theorem. -/
+example : (arr4.iterLoaded (fun id => id != ⟨1, 3⟩)).Sublist arr4.toList :=
+  arr_loaded_subset_is_sublist _ arr4
+example : arr4.iterLoaded (fun _ => true) = arr4.toList :=
+  arr_loaded_all_eq_toList Example.T0 arr4 3 arr4_inv _ (fun _ => rfl)
+
+/-- a range that crosses the slab boundary -/
+example : arr4.iterReadOnlyRange 1 3 = .ok [elem 1, elem 2] :=
+  (arr_range_iter_eq_slice Example.T0 Example.legal arr4 3 arr4_inv 1 3 (by decide) (by decide)).1
+example : arr4.iterMutableRange 1 3 = .ok [elem 1, elem 2] :=
+  (arr_range_iter_eq_slice Example.T0 Example.legal arr4 3 arr4_inv 1 3 (by decide) (by decide)).2
+example : arr4.iterReadOnlyRange 2 5 = .error .sliceOutOfBounds :=
+  ((bad_range_rejected arr4 2 5).1 (Or.inr (by decide))).1
+example : arr4.iterMutableRange 3 1 = .error .invalidSliceIndex :=
+  ((bad_range_rejected arr4 3 1).2 ⟨by decide, by decide, by decide⟩).2
+
+example : MapInv IterExample.T0 IterExample.D map3 := map3_inv
+example : run3 = .ok (map3, 1) := run3_eq
+example : map3.toList = [(k 11, v 1), (k 12, v 3), (k 25, v 2)] := map3_toList
+
+/-- the mutable iterator walks through the collision group and on to the next element -/
+example : map3.iterMutable IterExample.cfg = .ok [(k 11, v 1), (k 12, v 3), (k 25, v 2)] :=
+  map_mut_iter_eq_toList IterExample.T0 IterExample.legal IterExample.D IterExample.cfg map3 cfg_ok map3_inv
+/-- the successor of the last key of the group is the first key of the next element -/
+example : map3.getElementAndNextKey IterExample.cfg (k 12) = .ok (k 12, v 3, some (k 25)) :=
+  map_lookup_and_successor IterExample.T0 IterExample.legal IterExample.D IterExample.cfg map3 cfg_ok map3_inv
+    [(k 11, v 1)] (k 12, v 3) [(k 25, v 2)] map3_toList
+example : map3.iterReadOnly = .ok map3.toList :=
+  map_ro_iter_eq_toList IterExample.T0 IterExample.legal IterExample.D IterExample.cfg map3 cfg_ok map3_inv map3_ids
+example : map3.iterLoaded (fun _ => true) = map3.toList :=
+  map_loaded_all_eq_toList IterExample.T0 IterExample.D map3 map3_inv _ (fun _ => rfl)
+
+end NonVacuity
 
 end Atree.C13
